@@ -365,6 +365,11 @@ func (c10) Generate(seed uint64, tier string, index int) any {
 		min = 12
 	}
 	sc.Tr = g.TransportFor(min, treeBytes(&sc.Src)+treeBytes(&sc.Dst))
+	if arr != "A4" && g.R.Intn(6) == 0 {
+		// dry run over what a killed real run left behind (temporary files,
+		// half-made directories): still nothing may change
+		sc.Kill = &KillPoint{PerMille: g.R.Intn(1001)}
+	}
 	return &C10Scenario{Sync: sc}
 }
 
@@ -394,6 +399,9 @@ func (c10) Run(t *testing.T, scenario any, job *Job, res *Result) {
 	}
 	if err := prepare(&sc.Sync, lay); err != nil {
 		res.Invalid = err.Error()
+		return
+	}
+	if sc.Sync.Kill != nil && !killedState(t, &sc.Sync, lay, res) {
 		return
 	}
 	before, _ = fstree.Snapshot(root)
